@@ -51,6 +51,8 @@ type Contract struct {
 	Requires []Clause
 	Ensures  []Clause
 	Panics   []Clause
+	Exits    []Clause
+	MayExit  bool
 	Loops    map[int]*LoopSpec
 	Decr     []Clause
 	Inline   bool
@@ -103,7 +105,14 @@ type LemmaDecl struct {
 	Induct string // parameter name for induction on naturals
 }
 
+type NoReturn struct {
+	Kind    string // "var" or "field"
+	Name    string // global name, or Struct.Field
+	PkgPath string
+}
+
 type ContractSet struct {
+	NoReturns []NoReturn
 	Funcs  map[string]*Contract // key: pkgpath + "::" + Key
 	Specs  []*SpecFunc
 	Axioms []*AxiomDecl
@@ -111,7 +120,7 @@ type ContractSet struct {
 	Files  []string
 }
 
-var kwRe = regexp.MustCompile(`^(func|pure|axiom|lemma|requires|ensures|panics|loop|decreases|inline|trusted|nopanic|let|maypanic|modifies|use|induct|logged|reveal|end)\b`)
+var kwRe = regexp.MustCompile(`^(func|pure|axiom|lemma|requires|ensures|panics|exits|loop|decreases|inline|trusted|nopanic|let|maypanic|mayexit|modifies|use|induct|logged|reveal|noreturn|end)\b`)
 
 type rawLine struct {
 	text string
@@ -230,7 +239,18 @@ func parseContractLines(lines []rawLine, fname, pkgPath string, cs *ContractSet)
 			curLemma = &LemmaDecl{Name: strings.TrimSpace(rest[:i]), Params: bs, PkgPath: pkgPath, File: fname, Line: s.line}
 			cs.Lemmas = append(cs.Lemmas, curLemma)
 			cur = nil
-		case "requires", "ensures", "panics", "decreases", "let", "use":
+		case "noreturn":
+			parts := strings.Fields(rest)
+			if len(parts) != 2 || (parts[0] != "var" && parts[0] != "field") {
+				return fmt.Errorf("%s:%d: noreturn var <name> | noreturn field <Struct.Field>", fname, s.line)
+			}
+			cs.NoReturns = append(cs.NoReturns, NoReturn{Kind: parts[0], Name: parts[1], PkgPath: pkgPath})
+			cur, curLemma = nil, nil
+		case "mayexit":
+			if cur != nil {
+				cur.MayExit = true
+			}
+		case "requires", "ensures", "panics", "exits", "decreases", "let", "use":
 			def := fmt.Sprintf("%s@%d", m, s.line)
 			c, err := mkClause(rest, s.line, def)
 			if m == "let" {
@@ -273,6 +293,9 @@ func parseContractLines(lines []rawLine, fname, pkgPath string, cs *ContractSet)
 			case "panics":
 				cur.Panics = append(cur.Panics, c)
 				cur.MayPanic = true
+			case "exits":
+				cur.Exits = append(cur.Exits, c)
+				cur.MayExit = true
 			case "decreases":
 				cur.Decr = append(cur.Decr, c)
 			case "let":
